@@ -19,7 +19,7 @@ FUNCTIONS = ['dtw_ndim.distance, warping_paths, warping_path, distance_matrix, u
              'util.SeriesContainer (list of 2-D arrays, 3-D array)', 'dd_dtw.c dtw_distance_ndim(_euclidean), dtw_warping_paths_ndim(_euclidean), ub_euclidean_ndim*',
              'dd_ed.c euclidean_distance_ndim*']
 BOUNDS = {'quick': {'d': '1..2 (C kernels also 3 at 2x2)', 'r,c': '1..3', 'window': 'None,1,2', 'penalty': 'None|symbolic', 'psi': 'None, 1', 'pruning / max_dist': 'r*c <= 4'},
-          'thorough': {'d': '1..4 (C: 1..3)', 'r,c': '1..3', 'window': 'all', 'penalty': 'None|symbolic', 'psi': 'None, 1', 'pruning / max_dist': 'r*c <= 9'}}
+          'thorough': {'d': '1..4 (C: 1..3)', 'r,c': '1..4 (d <= 2), 1..2 (d >= 3)', 'window': 'all', 'penalty': 'None|symbolic', 'psi': 'None, 1', 'pruning / max_dist': 'r*c <= 9'}}
 OUTSIDE = ['typed memoryview / container handling of the Cython layer', 'floating point rounding', 'sizes above the bound']
 ASSUMPTIONS = ['oracle: spec_dtw with D[i][j] = sum_k SQ(a[i,k]-b[j,k]) (resp. its square root)', 'SQ/SQRT abstractions with lemmas; sat answers refined and replayed']
 RULE = ('configuration = (claim family, engine, inner distance, d, r, c, options); all vector components symbolic; one query per claim and (joint) execution path.')
@@ -38,9 +38,10 @@ def tasks(tier, seed):
     dims = (1, 2) if tier == 'quick' else (1, 2, 3, 4)
     for d in dims:
         for inner in ('sq', 'abs'):
-            for r in range(1, 4):
-                for c in range(1, 4):
-                    if d >= 3 and r * c > 4:
+            rmax = 3 if tier == 'quick' else 4
+            for r in range(1, rmax + 1):
+                for c in range(1, rmax + 1):
+                    if (d >= 3 and r * c > 4) or (r * c > 9 and d > 2):
                         continue
                     ts.append({'harness': 'py/distance', 'fam': 'pydist', 'd': d, 'inner': inner, 'r': r, 'c': c, 'est': r * c * d * 8})
                     if inner == 'sq':
